@@ -89,11 +89,11 @@ claim("C09", "E3", "model_checking",
       "scripts are fixed packet lists; more than three simultaneous sessions are not explored", "3/C09")
 claim("C15", "E2", "model_checking",
       "stateless deviation-bounded exploration of goroutine interleavings of the instrumented real code under a controlled scheduler, with a per-schedule happens-before race oracle (Go race detector blinded to the scheduler)",
-      "Twenty-one harnesses (concurrent connections on shared policy data, accept loop with opening/closing/refused connections, lookups concurrent with reloads, a consumer of a published configuration concurrent with the next load, the loader's update loop polling the real file-loader object while the next document is loaded, multiplexed sessions, cancellation during serving, cancellation racing the next requests of an idle connection with a pending session, two concurrent logins of one user with different passwords, a multi-scope user whose rule slices have spare capacity, a reload introducing new command patterns during a command authorization, one key slice shared by every connection, a lookup held in the secret store across a reload, accounting through the default file sink - at /dev/full and at a scratch file - while the virtual clock ticks) run the real sync/goroutine/channel/timer code on a cooperative scheduler with a virtual clock; "
+      "Twenty-two harnesses (concurrent connections on shared policy data, accept loop with opening/closing/refused connections, lookups concurrent with reloads, a consumer of a published configuration concurrent with the next load, the loader's update loop polling the real file-loader object while the next document is loaded, multiplexed sessions, cancellation during serving, cancellation racing the next requests of an idle connection with a pending session, two concurrent logins of one user with different passwords, a multi-scope user whose rule slices have spare capacity, a reload introducing new command patterns during a command authorization, one key slice shared by every connection, a lookup held in the secret store across a reload, two clients using a wrong key, accounting through the default file sink - at /dev/full and at a scratch file - while the virtual clock ticks) run the real sync/goroutine/channel/timer code on a cooperative scheduler with a virtual clock; "
       "every schedule with at most 1 (quick) / 2 (thorough) deviations is executed under -race. A race report, a lookup that observes a mixture of two configurations, a published configuration that changes, a deadlock or a wrong reply is a violation.",
       "schedules with more deviations than the bound and code not reached by the harnesses are not covered; ThreadSanitizer treats the prometheus atomics as synchronisation, so statement-level points are inserted where handlers touch shared policy data (types.go TrimSpace, stringy evaluate, loader.updates)", "3/C15")
 claim("C17", "E2", "model_checking",
       "exhaustive enumeration of environment scripts x deviation-bounded schedules of the real Serve loop under a controlled scheduler with scripted listener/connections and virtual time",
-      "Every script of client connects, full/partial packets, read-deadline expiries, cancellation and accept-deadline expiries up to the length bound (also against a server in proxy mode), and clock-driven pacing scripts (one byte every ten seconds, never a complete packet), followed by a fair closing phase, is run under every schedule within the deviation bound; "
+      "Every script of client connects, full/partial packets, read-deadline expiries, cancellation and accept-deadline expiries up to the length bound (also against a server in proxy mode), clock-driven pacing scripts (one byte every ten seconds, never a complete packet), steady arrivals after the cancellation, a listener closed by the caller and connections from remotes the secret store refuses, followed by a fair closing phase, is run under every schedule within the deviation bound; "
       "the event log must show a finite future deadline armed before every read, timed-out connections closed and never touched again, a connection that has not delivered a complete packet by the deadline armed when the wait began closed, and Serve returning only after the listener is closed and every connection goroutine has finished (a state with no runnable thread is a deadlock).",
       "scripts longer than the bound, more than two connections and schedules with more deviations than the bound are not explored; real timers are replaced by a virtual clock", "3/C17")
